@@ -605,7 +605,7 @@ pub fn cases(seed: u64, tier: Tier) -> Cases {
             let log = format!("listAliasRet(n={:?})", k);
             both!(run, rng, r, |c, fl| {
                 let out = call!(fl, c, list_alias_ret(k), |v: ListAlias| format!("{:?}", v));
-                run.check(fl, "listAliasRet", Texts(vec![vec![plain(&k)]]), ("none", 0), "json", r.list.is_empty(), &c, out, log.clone(), format!("{:?}", ListAlias(r.list.clone())), false);
+                run.check(fl, "listAliasRet", Texts(vec![vec![plain(&k)]]), ("none", 0), "json", r.list.is_empty(), &c, out, log.clone(), format!("{:?}", ListAlias(r.list.iter().map(|x| *x as f64 + 0.5).collect())), false);
             });
             let log = format!("optAliasRet(n={:?})", k);
             both!(run, rng, r, |c, fl| {
@@ -635,7 +635,7 @@ pub fn cases(seed: u64, tier: Tier) -> Cases {
             neg_call!(run, rng, r, "safeBody", false, false, format!("safeBody(safeBodyArg={:?})", sb), format!("{:?}", sb), safe_body(sb), |v: i32| format!("{:?}", v));
             let (auth, b) = (gen_token(&mut rng), gen_simple(&mut rng));
             neg_call!(run, rng, r, "body", false, false, format!("body(auth={:?}, body={:?})", auth.as_str(), b), format!("{:?}", b), body(&auth, &b), |v: Simple| format!("{:?}", v));
-            neg_call!(run, rng, r, "listAliasRet", true, r.list.is_empty(), format!("listAliasRet(n={:?})", k), format!("{:?}", ListAlias(r.list.clone())), list_alias_ret(k), |v: ListAlias| format!("{:?}", v));
+            neg_call!(run, rng, r, "listAliasRet", true, r.list.is_empty(), format!("listAliasRet(n={:?})", k), format!("{:?}", ListAlias(r.list.iter().map(|x| *x as f64 + 0.5).collect())), list_alias_ret(k), |v: ListAlias| format!("{:?}", v));
             neg_call!(run, rng, r, "optAliasRet", true, r.opt_str.is_none(), format!("optAliasRet(n={:?})", k), format!("{:?}", OptStrAlias(r.opt_str.clone())), opt_alias_ret(k), |v: OptStrAlias| format!("{:?}", v));
             neg_call!(run, rng, r, "mapAliasRet", true, r.dmap.is_empty(), format!("mapAliasRet(n={:?})", k), format!("{:?}", MapAlias(r.dmap.clone())), map_alias_ret(k), |v: MapAlias| format!("{:?}", v));
             let ids: Vec<Uuid> = (0..rng.below(3)).map(|_| gen_uuid(&mut rng)).collect();
